@@ -49,6 +49,63 @@ func main() {
 	o := core.HistOpts{Shapes: []string{"doc", "flat", "flatb", "kv", "nested", "nestedb", "person", "rep3"}, PageMin: 1, PageMax: 4, MinBatches: 1, MaxBatches: 3, MaxOps: 10, Profile: core.Benign}
 	bad := 0
 	total := 0
+	// First-use stampede: for every shape, all goroutines start a writer at the
+	// same moment before any writer of that shape has run in this process, and
+	// then all start a reader of the file at the same moment before any reader of
+	// that shape has run. Lazily initialised package-level state is only raced
+	// on by the FIRST users of a process; a harness that warms up sequentially
+	// never sees it.
+	for _, shape := range o.Shapes {
+		so := o
+		so.Shapes = []string{shape}
+		so.MaxOps = 6
+		specs := make([]*core.WriterSpec, *g)
+		for i := range specs {
+			specs[i] = core.GenHistory(r, so)
+		}
+		files := make([][]byte, *g)
+		var wg sync.WaitGroup
+		start := make(chan struct{})
+		for i := 0; i < *g; i++ {
+			wg.Add(1)
+			go func(i int) {
+				defer wg.Done()
+				<-start
+				sink := &core.Sink{}
+				core.ExecWriter(specs[i], sink)
+				files[i] = sink.Data
+			}(i)
+		}
+		close(start)
+		wg.Wait()
+		start = make(chan struct{})
+		recs := make([][]interface{}, *g)
+		for i := 0; i < *g; i++ {
+			wg.Add(1)
+			go func(i int) {
+				defer wg.Done()
+				<-start
+				rr := core.ExecReader(shape, core.NewSource(files[i], nil, nil).AsReadSeeker("rs"), 1<<20, nil)
+				recs[i] = rr.Recs
+			}(i)
+		}
+		close(start)
+		wg.Wait()
+		// compare with sequential solo runs afterwards
+		for i := 0; i < *g; i++ {
+			total++
+			sink := &core.Sink{}
+			core.ExecWriter(specs[i], sink)
+			rr := core.ExecReader(shape, core.NewSource(sink.Data, nil, nil).AsReadSeeker("rs"), 1<<20, nil)
+			if !bytes.Equal(sink.Data, files[i]) {
+				bad++
+				fmt.Printf("INTERFERENCE %s: bytes of a first-use writer differ from the solo run\n", specs[i].HistoryString())
+			} else if eq, d := core.EqualRecs(recs[i], rr.Recs); !eq {
+				bad++
+				fmt.Printf("INTERFERENCE %s: records of a first-use reader differ from the solo run: %s\n", specs[i].HistoryString(), d)
+			}
+		}
+	}
 	for round := 0; round < *rounds; round++ {
 		// Workloads grow from round to round, and the parallel phase runs BEFORE
 		// the solo references are computed: shared state of the "high-water mark"
